@@ -11,6 +11,7 @@
    frame, which is what the code does (new[t][old[t] == 0] = node id). *)
 From Coq Require Import ZArith List Bool.
 From FT Require Import Model.LabelUtils Model.Relabel Proofs.LabelUtilsProofs Proofs.RelabelProofs.
+From FT Require Gen.Relabel_gen Proofs.RelabelTie.
 Import ListNotations.
 Open Scope Z_scope.
 
@@ -79,6 +80,15 @@ Definition R (i : Z) (t : nat) (s : Z) : tnode := {| n_id := i; n_time := t; n_s
 
 (* frame 0: the ids are a cyclic permutation of the labels (1->2, 2->3, 3->1: a chain);
    frame 1 reuses labels 1 and 2; label 9 is unlisted in both frames; node 6 has no pixels *)
+(* ---- relabel_segmentation is, for all arguments, the code translated on every run from the current
+        import_export/_import_segmentation.py (Gen/Relabel_gen.v; translator harness/translate_numpy_utils.py,
+        fail closed): called with the three columns of one row list it returns the model's array and the graph
+        node ids shifted by the model's offset. ---- *)
+Theorem C13_relabel_is_generated : forall rows old g,
+  FT.Gen.Relabel_gen.gen_relabel_segmentation old g (map n_id rows) (map n_seg rows) (map FT.Proofs.RelabelTie.tz rows) =
+  (fst (relabel_segmentation rows old), map (fun n => (n + offset rows)%Z) g).
+Proof. exact FT.Proofs.RelabelTie.gen_relabel_segmentation_eq. Qed.
+
 Example C13_permuted_chain :
   let rows := [R 2 0 1; R 3 0 2; R 1 0 3; R 5 1 1; R 4 1 2; R 6 1 8] in
   let old := [[1;2;3;0;9;1]; [1;1;2;9;0;2]] in
@@ -134,3 +144,4 @@ Print Assumptions C13_relabel_last_wins.
 Print Assumptions C13_graph_shift.
 Print Assumptions C13_shortcut_sound.
 Print Assumptions C13_handle_segmentation.
+Print Assumptions C13_relabel_is_generated.
